@@ -50,8 +50,8 @@ fn model_from_json(v: &Value) -> LinearModel {
 
 fn gen_model(r: &mut Rng, kind: &str) -> LinearModel {
     let mut m = LinearModel::new();
-    let nv = 1 + r.below(if kind == "shadow" { 2 } else { 4 });
-    let names = ["x", "y", "z", "w"];
+    let nv = if kind == "bigint" { 4 + r.below(3) } else { 1 + r.below(if kind == "shadow" { 2 } else { 4 }) };
+    let names = ["x", "y", "z", "w", "u", "v", "t"];
     for i in 0..nv {
         let t = match kind {
             "lp" | "shadow" => match r.below(6) {
@@ -61,6 +61,7 @@ fn gen_model(r: &mut Rng, kind: &str) -> LinearModel {
                 4 => VariableType::Real(r.range(-4, 0) as f64, r.range(1, 5) as f64),
                 _ => VariableType::Real(f64::NEG_INFINITY, r.range(-1, 4) as f64),
             },
+            "bigint" => { let lo = r.range(-2, 0) as i32; VariableType::IntegerRange(lo, lo + r.range(2, 6) as i32) }
             "int" => match r.below(3) { 0 => VariableType::Boolean, _ => { let lo = r.range(-2, 1) as i32; VariableType::IntegerRange(lo, lo + r.range(0, 4) as i32) } },
             _ => match r.below(6) { 0 => VariableType::Boolean, 1 | 2 => { let lo = r.range(-2, 1) as i32; VariableType::IntegerRange(lo, lo + r.range(0, 4) as i32) }, 3 => VariableType::NonNegativeReal(0.0, r.range(1, 6) as f64), 4 => VariableType::Real(r.range(-3, 0) as f64, r.range(1, 4) as f64), _ => VariableType::NonNegativeReal(0.0, f64::INFINITY) },
         };
@@ -136,6 +137,15 @@ fn run_solver(m: &LinearModel, k: usize) -> Value {
     r.unwrap_or_else(|_| json!({"status":"panic"}))
 }
 
+pub fn limit_options() -> Vec<(Option<std::time::Duration>, Option<f64>)> {
+    use std::time::Duration;
+    let tls = [None, Some(Duration::from_nanos(0)), Some(Duration::from_nanos(1000)), Some(Duration::from_micros(30)), Some(Duration::from_secs(5))];
+    let gaps = [None, Some(0.0), Some(1e-9), Some(0.5), Some(10.0), Some(-1.0), Some(f64::NAN), Some(f64::INFINITY)];
+    let mut out = Vec::new();
+    for t in tls.iter() { for g in gaps.iter() { out.push((*t, *g)); } }
+    out
+}
+
 fn main() {
     let args: Vec<String> = std::env::args().collect();
     match args[1].as_str() {
@@ -167,6 +177,33 @@ fn main() {
                     if i == start_i && k < start_k { continue; }
                     { let mut o = out.lock(); writeln!(o, "S {} {}", i, k).unwrap(); o.flush().unwrap(); }
                     let res = run_solver(&m, k);
+                    let mut o = out.lock(); writeln!(o, "R {} {} {}", i, k, res).unwrap(); o.flush().unwrap();
+                }
+            }
+            println!("DONE");
+        }
+        "limits" => {
+            // C15: every MILP model x every (time limit, MIP gap) setting through solve_milp_lp_problem_with;
+            // the raw microlp status is read back through the guarded hook
+            std::panic::set_hook(Box::new(|_| {}));
+            let start_i: usize = args[3].parse().unwrap(); let start_k: usize = args[4].parse().unwrap();
+            let file = std::io::BufReader::new(std::fs::File::open(&args[2]).unwrap());
+            let out = std::io::stdout();
+            let opts = limit_options();
+            for (i, line) in file.lines().enumerate() {
+                if i < start_i { continue; }
+                let v: Value = serde_json::from_str(&line.unwrap()).unwrap();
+                let m = model_from_json(&v);
+                for (k, (tl, gap)) in opts.iter().enumerate() {
+                    if i == start_i && k < start_k { continue; }
+                    { let mut o = out.lock(); writeln!(o, "S {} {}", i, k).unwrap(); o.flush().unwrap(); }
+                    let options = rooc::MilpOptions { mip_gap: *gap, time_limit: *tl };
+                    let _ = rooc::milp_verif_hooks::take_raw_status();
+                    let res = std::panic::catch_unwind(|| rooc::solve_milp_lp_problem_with(&m, &options).map(|s| sol_json(&s)).unwrap_or_else(|e| err_json(&e)))
+                        .unwrap_or_else(|_| json!({"status":"panic"}));
+                    let raw = rooc::milp_verif_hooks::take_raw_status();
+                    let mut res = res; res["raw"] = json!(raw);
+                    res["time_limit_ns"] = json!(tl.map(|d| d.as_nanos() as u64)); res["gap"] = json!(gap.map(fs));
                     let mut o = out.lock(); writeln!(o, "R {} {} {}", i, k, res).unwrap(); o.flush().unwrap();
                 }
             }
